@@ -19,10 +19,12 @@ ASSUMPTIONS = P2.ASSUMPTIONS + ['the translator\'s fixed renamings (go -> _movie
 LEVEL_TEXT = ('Proof (partial): Coq theorems that for every expression tree of the core families the JavaScript emitted for the '
               'reified tree is the print of a JavaScript syntax tree to_js e (so it is well formed by construction of the '
               'printer) and that the tree can be read back (read_js (to_js e) = the source expression with its names): it denotes the same operators, '
-              'operand order, variable kinds and literals as the program and as the emitted Lingo. Syntactic validity against '
+              'operand order, variable kinds and literals as the program and as the emitted Lingo; statement lines (assignments, calls) and, '
+              'for every exit-free nest of if / if-else / repeat while of any depth, the emitted JavaScript is the canonical layout of the source '
+              'program (C04_statement_js, C04_structured_js_is_canonical, on top of the C03 theorem that the nest is rebuilt from the bytes). Syntactic validity against '
               'the real JavaScript grammar is decided by node on every generated program, not by a theorem.')
-LEVEL_NOTE = 'Validity rests on node + the trusted printer; statement / script-kind wrappers and the further families are covered by the token-for-token oracle and the model correspondence only.'
-TECHNIQUE = 'Coq proof by induction over the expression tree (emitter = printer of a JS syntax tree; translation invertible) + node syntax check + model/implementation correspondence'
+LEVEL_NOTE = 'Validity rests on node + the trusted printer; script-kind wrappers (function headers, class wrappers, factories), counting / list loops, exit repeat and the further expression families are covered by the token-for-token oracle and the model correspondence only.'
+TECHNIQUE = 'Coq proof by induction over the expression tree and over the program structure (emitter = printer of a JS syntax tree; translation invertible; structured layout) + node syntax check + model/implementation correspondence'
 
 def gen_cases(rng, tier):
     for s in H.pair_scripts(rng):
